@@ -233,8 +233,37 @@ fn run_case(seed: u64, idx: u64, _tier: Tier, out: &mut CaseOut) {
                     let tp = |v: &Vec<&str>| -> Vec<String> {
                         v.iter().map(|l| t_proj(l)).filter(|l| !l.is_empty()).collect()
                     };
-                    let sig = if (nb(&xl) == nb(&yl) || tp(&xl) == tp(&yl)) && yl.iter().all(|q| sw_min(q) <= w) {
-                        "pad-adds-or-removes-blank-lines"
+                    // (next to a taller cell the extra blank line only moves the
+                    // cell's text down: compare the text column by column)
+                    let cols = |v: &Vec<&str>| -> Vec<Vec<String>> {
+                        let mut c: Vec<Vec<String>> = Vec::new();
+                        for l in v {
+                            for (j, f) in l.split('│').enumerate() {
+                                let f = f.trim();
+                                if f.is_empty() || f.chars().all(|ch| "─┬┴┼├┤ ".contains(ch)) {
+                                    continue;
+                                }
+                                if c.len() <= j {
+                                    c.resize(j + 1, Vec::new());
+                                }
+                                c[j].push(f.to_string());
+                            }
+                        }
+                        c
+                    };
+                    let fits = yl.iter().all(|q| sw_min(q) <= w);
+                    let mut ta: Vec<char> = t_proj(x).chars().collect();
+                    let mut tb: Vec<char> = t_proj(y).chars().collect();
+                    ta.sort();
+                    tb.sort();
+                    let sig = if fits && pre_has_blank_line(&input) && ta == tb {
+                        // the recorded defect: a whitespace-only line of preformatted
+                        // text is the only kind of blank line that is padded; the extra
+                        // blank line it causes moves the text after it down (inside a
+                        // table row: relative to the neighbouring cells)
+                        "pad-adds-or-removes-blank-lines:pre-with-blank-line"
+                    } else if fits && (nb(&xl) == nb(&yl) || tp(&xl) == tp(&yl) || cols(&xl) == cols(&yl)) {
+                        "pad-adds-or-removes-blank-lines:no-blank-pre-line"
                     } else {
                         "pad-changes-more-than-trailing-spaces"
                     };
@@ -298,7 +327,9 @@ fn run_case(seed: u64, idx: u64, _tier: Tier, out: &mut CaseOut) {
                 return;
             }
             if let Outcome::Ok(y) = &b {
-                if y.chars().any(is_box) || (raw && y.lines().any(|l| !l.is_empty() && l.chars().all(|c| c == '/'))) {
+                // ('/' is the border of a stacked table; a wrapped href can put a single
+                // '/' on a line of its own, so only a full-width run counts)
+                if y.chars().any(is_box) || (raw && w >= 2 && !input.windows(2).any(|p| p == b"//") && y.lines().any(|l| l.chars().count() == w && l.chars().all(|c| c == '/'))) {
                     viol(out, if raw {"raw-has-box-chars"} else {"no_borders-has-box-chars"}, "box-drawing characters remain".into(), &input, w, &base, &opt, &a, &b);
                     return;
                 }
@@ -486,4 +517,33 @@ fn run_case(seed: u64, idx: u64, _tier: Tier, out: &mut CaseOut) {
     if out.sample.is_none() {
         out.sample = Some(json!({"relation": rel, "width": w, "base": base.describe()}));
     }
+}
+
+/// Does the document hold a <pre> whose text has a whitespace-only line?
+fn pre_has_blank_line(input: &[u8]) -> bool {
+    let dom = crate::odom::parse(input);
+    fn text_of(dom: &crate::odom::ODom, id: crate::odom::Id, s: &mut String) {
+        for &c in dom.children(id) {
+            match dom.kind(c) {
+                crate::odom::Kind::Text(t) => s.push_str(t),
+                crate::odom::Kind::Element { .. } => {
+                    if dom.html_name(c) == Some("br") {
+                        s.push('\n');
+                    }
+                    text_of(dom, c, s)
+                }
+                _ => {}
+            }
+        }
+    }
+    for id in 0..dom.nodes.len() {
+        if dom.attached(id) && dom.html_name(id) == Some("pre") {
+            let mut s = String::new();
+            text_of(&dom, id, &mut s);
+            if !s.is_empty() && s.split('\n').any(|l| l.trim().is_empty()) {
+                return true;
+            }
+        }
+    }
+    false
 }
